@@ -46,14 +46,87 @@ def batches(tier: str) -> List[Batch]:
         return [Batch("rs-hist", "rs-core", 20000, 200), Batch("py-hist", "py-core", 480, 6),
                 Batch("rs-split", "rs-machine", 3000, 100), Batch("py-split", "py-machine", 240, 6),
                 Batch("py-trace", "py-machine", 160, 8), Batch("rs-dev", "rs-machine", 2000, 100),
-                Batch("rs-mhist", "rs-machine", 4000, 100)]
+                Batch("rs-mhist", "rs-machine", 4000, 100), Batch("py-stepper", "py-core", 400, 10)]
     return [Batch("rs-hist", "rs-core", 1500000, 500), Batch("py-hist", "py-core", 150000, 50),
             Batch("rs-split", "rs-machine", 150000, 300), Batch("py-split", "py-machine", 8000, 10),
             Batch("py-trace", "py-machine", 6000, 10), Batch("rs-dev", "rs-machine", 60000, 200),
-            Batch("rs-mhist", "rs-machine", 200000, 300)]
+            Batch("rs-mhist", "rs-machine", 200000, 300), Batch("py-stepper", "py-core", 40000, 50)]
+
+
+def _gen_stepper(r: Rng) -> Dict[str, Any]:
+    """The snapshot-driven stepper (stepper.py): one CPUStepper object answers a sequence of unrelated requests
+    (register snapshot, sparse memory image), a fresh one answers each of them next to it.  Images are sparse on purpose:
+    cells that an earlier request defined and a later one leaves to the default fill are where a kept object could
+    remember something."""
+    pool = [0x02000 + i for i in range(6)] + [0xBFE00 + i for i in range(4)]
+    steps = []
+    for _ in range(r.range(2, 8)):
+        pc = r.choice([0x01000, 0x01000, 0x01100, 0x3FF00])
+        addr = r.choice(pool[:6])
+        s_reg = 0xBFE00
+        form = r.weighted([("ld", 5), ("st", 2), ("ret", 2), ("nop", 1), ("ldx", 2), ("pops", 1)])
+        if form == "ld":
+            code = [0x88, addr & 0xFF, (addr >> 8) & 0xFF, (addr >> 16) & 0xFF]          # MV A,[lmn]
+        elif form == "st":
+            code = [0xA8, addr & 0xFF, (addr >> 8) & 0xFF, (addr >> 16) & 0xFF]          # MV [lmn],A
+        elif form == "ret":
+            code = [0x06]
+        elif form == "ldx":
+            code = [0x90, 0x04]                                                          # MV A,[X]
+        elif form == "pops":
+            code = [0x37]                                                                # POPS / POPU form reading the stack
+        else:
+            code = [0x00]
+        image = {str(pc + i): b for i, b in enumerate(code)}
+        for cell in pool:
+            if r.chance(1, 3):
+                image[str(cell)] = r.range(1, 255)
+        regs = {"pc": pc, "ba": r.below(0x10000), "i": r.below(0x100), "x": r.choice(pool[:6]), "y": r.choice(pool[:6]),
+                "u": 0xBFD00, "s": s_reg, "f": r.below(4)}
+        steps.append({"regs": regs, "image": image})
+    return {"kind": "stepper", "exec": "py-core", "steps": steps, "default": r.choice([0, 0, 0xFF])}
+
+
+def _exec_stepper(scn: Dict[str, Any]) -> Dict[str, Any]:
+    from sc62015.pysc62015.stepper import CPURegistersSnapshot, CPUStepper
+
+    def run(st, step):
+        regs = CPURegistersSnapshot(**step["regs"])
+        image = {int(a): v for a, v in step["image"].items()}
+        try:
+            res = st.step(regs, image)
+        except Exception as e:
+            return {"err": f"{type(e).__name__}: {e}"[:120]}
+        rr = res.registers
+        return {"regs": [rr.pc, rr.ba, rr.i, rr.x, rr.y, rr.u, rr.s, rr.f],
+                "writes": [[w.address, w.value, w.previous, w.size] for w in res.memory_writes],
+                "name": res.instruction_name, "length": res.instruction_length,
+                "image": sorted((int(a), int(v)) for a, v in dict(res.memory_image).items())}
+
+    kept = CPUStepper(default_memory_value=scn["default"], backend="python")
+    out = []
+    for step in scn["steps"]:
+        fresh = CPUStepper(default_memory_value=scn["default"], backend="python")
+        out.append({"kept": run(kept, step), "fresh": run(fresh, step)})
+    return {"steps": out}
+
+
+def _check_stepper(scn: Dict[str, Any], hist: Dict[str, Any]) -> List[Dict[str, Any]]:
+    viols: List[Dict[str, Any]] = []
+    for k, rec in enumerate(hist["steps"]):
+        a, b = rec["fresh"], rec["kept"]
+        if a != b:
+            field = next((f for f in ("err", "regs", "writes", "name", "length", "image") if a.get(f) != b.get(f)), "?")
+            viols.append({"cls": "history_dependence", "executor": "py-core", "where": {"field": field, "level": "stepper"},
+                          "msg": f"request {k}: a CPUStepper that answered {k} earlier requests gives {field} = {_s(b.get(field))}, "
+                                 f"a fresh one {_s(a.get(field))}", "at": k})
+            break
+    return viols
 
 
 def generate(batch: str, r: Rng, idx: int, tier: str) -> Dict[str, Any]:
+    if batch == "py-stepper":
+        return _gen_stepper(r)
     if batch == "py-trace":
         # the same machine, program and event schedule with tracing off and on: the tracing switch is hidden state
         feat = machine.gen_features(r.child("feat"), {"timers": True, "imr_writes": True, "isr_writes": True, "wait": True,
@@ -201,9 +274,12 @@ def _gen_dev(r: Rng) -> Dict[str, Any]:
     rs = r.child("scramble")
     width = rs.choice([16, 24])
     at = rs.range(0, n - 1)
+    # stale frames: a few, or — one run in four — more than a long-running program leaves behind before any bound on the
+    # bookkeeping would be reached (frames of code that unwound its stack by hand are never popped)
+    n_stale = rs.range(1, 3) if not r.child("many-frames").chance(1, 4) else r.child("many-frames").range(50, 140)
     scr = [at, "scramble", [rs.below(1 << 24) for _ in range(14)], rs.below(8),
-           [rs.below(16) << 16 for _ in range(rs.range(1, 3))], rs.below(1 << 30), width]
-    return {"kind": "dev", "exec": "rs-machine", "device": r.choice(["pce500", "pce500", "jp"]), "prog": prog,
+           [rs.below(16) << 16 for _ in range(n_stale)], rs.below(1 << 30), width]
+    return {"kind": "dev", "exec": "rs-machine", "callf_at": base + callf_at, "device": r.choice(["pce500", "pce500", "jp"]), "prog": prog,
             "regs": {"PC": base, "S": progen.S_INIT, "U": progen.U_INIT, "BA": 0x1234, "I": 0, "X": 0, "Y": 0, "F": 0},
             "imem": [[progen.IMR, 0], [progen.ISR, 0]], "timer": {"enabled": False, "mti": 0, "sti": 0},
             "kb": {"press": 1, "release": 1, "repeat_delay": 24, "repeat_interval": 6, "active_high": True},
@@ -236,6 +312,12 @@ def _check_dev(scn: Dict[str, Any], hist: Dict[str, Any]) -> List[Dict[str, Any]
                 # the stub reads the width of the innermost frame of the bookkeeping: with stale frames of the far call's
                 # own width and no near call live when they appeared, fresh and scrambled bookkeeping say the same
                 agrees = scn["top_frame"] == 24 and not live_near
+                if "callf_at" in scn:
+                    # stale frames that were there before the far call executed lie *below* its frame: the innermost
+                    # frame is the real one on both machines, whatever the stale ones look like
+                    k_call = next((i for i, o in enumerate(a) if o[machine.O_PC] == scn["callf_at"]), None)
+                    if k_call is not None and ks <= k_call:
+                        agrees = True
                 viols.append({"cls": "history_dependence", "executor": "rs-machine",
                               "where": {"field": name, "level": "device_machine", "at": "rom_stub_entry" if at_stub else "elsewhere",
                                         "stale_frame_width": scn["top_frame"], "bookkeeping_agrees": agrees},
@@ -379,6 +461,8 @@ def _exec_trace(scn: Dict[str, Any]) -> Dict[str, Any]:
 
 
 def execute(scn: Dict[str, Any]) -> Dict[str, Any]:
+    if scn["kind"] == "stepper":
+        return _exec_stepper(scn)
     if scn["kind"] == "trace":
         return _exec_trace(scn)
     if scn["kind"] == "split":
@@ -400,6 +484,8 @@ def _first_diff(a: List[list], b: List[list]):
 
 
 def check(scn: Dict[str, Any], hist: Dict[str, Any]) -> List[Dict[str, Any]]:
+    if scn["kind"] == "stepper":
+        return _check_stepper(scn, hist)
     if scn["kind"] == "dev":
         return _check_dev(scn, hist)
     ex = scn["exec"]
@@ -466,6 +552,10 @@ def _s(v):
 
 def stats(scn: Dict[str, Any], hist: Dict[str, Any]) -> Dict[str, Any]:
     probes: Dict[str, int] = {}
+    if scn["kind"] == "stepper":
+        ok = sum(1 for rec in hist["steps"] if "err" not in rec["fresh"])
+        return {"nontrivial": ok >= 2, "sig": digest(scn["steps"]), "faults": {"object_reused": len(hist["steps"]) - 1},
+                "probes": {"stepper_reused": 1}, "cycles": ok, "boundaries": 2 * len(hist["steps"])}
     if scn["kind"] == "dev":
         probes = dict(hist.get("_probes") or {})
         probes["scramble"] = 1
@@ -507,6 +597,9 @@ def stats(scn: Dict[str, Any], hist: Dict[str, Any]) -> Dict[str, Any]:
 
 
 def sample(scn: Dict[str, Any], hist: Dict[str, Any]) -> Dict[str, Any]:
+    if scn["kind"] == "stepper":
+        return {"executor": "py-core (CPUStepper)", "requests": len(scn["steps"]),
+                "first": {k: v for k, v in hist["steps"][0]["fresh"].items() if k != "image"}}
     if scn["kind"] == "dev":
         return {"executor": scn["exec"], "device": scn["device"], "stub": hex(scn["stub"]), "scramble_at": scn["scramble_op"][0],
                 "stale_frame_width": scn["top_frame"], "fresh": [o[:8] for o in hist["a"]["obs"][:6]]}
@@ -522,6 +615,13 @@ def sample(scn: Dict[str, Any], hist: Dict[str, Any]) -> Dict[str, Any]:
 
 
 def shrink(scn: Dict[str, Any]):
+    if scn["kind"] == "stepper":
+        for i in range(len(scn["steps"])):
+            if len(scn["steps"]) > 1:
+                c = copy.deepcopy(scn)
+                del c["steps"][i]
+                yield c
+        return
     if scn["kind"] == "dev":
         op = scn["scramble_op"]
         for cand in ([0] * 14, op[2]):
